@@ -818,7 +818,11 @@ def get_rdata_class(rdclass, rdtype, use_generic=True):
                     pass
     if not cls and use_generic:
         cls = GenericRdata
-        _rdata_classes[(rdclass, rdtype)] = cls
+        if rdclass != dns.rdataclass.ANY:
+            # (ANY, rdtype) is the class-independent entry consulted for every
+            # class; the generic fallback for a record of class ANY itself must
+            # not occupy it (it would shadow IN-only types not loaded yet).
+            _rdata_classes[(rdclass, rdtype)] = cls
     return cls
 
 
